@@ -71,6 +71,8 @@ func checkC01(c *Ctx) {
 	c.codecLengthTables()
 	// a connection holds the subscriptions of its own session: a clean-session CONNECT does not inherit the stored ones
 	c.getSessionContract()
+	// a packet that wraps around the end of the outgoing ring is encoded into a scratch buffer that holds it
+	c.scratchHoldsTheMessage()
 }
 
 // fanOut: the delivery loop of a publish. The rule works on the supergraph of fn with its
